@@ -23,6 +23,7 @@ type RouterCfg struct {
 	FallbackMeth []string // methods of the "/*" route; nil = none registered
 	Order        []int    // order in which the options are passed to rux.New (a permutation; nil = fixed)
 	Encoded      bool     // UseEncodedPath (only used by the twin monitor C07: the reference models work on the decoded path)
+	GlobalUse    int      // number of separate Router.Use(mw) calls (C06 only): global middleware in front of every resolution
 }
 
 func (c RouterCfg) Describe() any {
@@ -30,6 +31,7 @@ func (c RouterCfg) Describe() any {
 		"HandleMethodNotAllowed": c.NotAllowed, "HandleFallbackRoute": c.Fallback, "StrictLastSlash": c.Strict,
 		"cache_capacity": c.CacheCap, "InterceptAll": c.Intercept, "custom_NotFound": c.CustomNF, "custom_NotAllowed": c.CustomNA,
 		"fallback_route_methods": strings.Join(c.FallbackMeth, ","), "option_order": c.Order, "UseEncodedPath": c.Encoded,
+		"global_middleware_Use_calls": c.GlobalUse,
 	}
 }
 
@@ -189,9 +191,30 @@ func customNotAllowed(c *rux.Context) {
 	c.WriteString("custom-na")
 }
 
+// c06Global is a global middleware; armed by the header X-Nest "<id>|<method>|<path>" it
+// serves a second request on the same router before it lets its own request go on.
+func c06Global(id string) rux.HandlerFunc {
+	return func(c *rux.Context) {
+		rec := recOf(c)
+		rec.Ev("enter(%s)", id)
+		if nest := c.Req.Header.Get("X-Nest"); strings.HasPrefix(nest, id+"|") {
+			parts := strings.SplitN(nest, "|", 3)
+			nrec, npv, npan := Serve(c.Router(), NewReq(parts[1], parts[2]))
+			if rec.Extra == nil {
+				rec.Extra = map[string]any{}
+			}
+			rec.Extra["nested_rec"], rec.Extra["nested_panic"], rec.Extra["nested_panicked"] = nrec, npv, npan
+		}
+		c.Next()
+	}
+}
+
 // BuildCfgRouter builds the router for a table + configuration.
 func BuildCfgRouter(tb *Table, cfg RouterCfg) *rux.Router {
 	r := BuildRouter(tb, cfg.Options()...)
+	for i := 0; i < cfg.GlobalUse; i++ {
+		r.Use(c06Global(fmt.Sprintf("g%d", i))) // one call per middleware, as applications add them
+	}
 	if cfg.CustomNF {
 		r.NotFound(customNotFound)
 	} else if len(tb.Routes)%2 == 0 {
@@ -209,7 +232,7 @@ func BuildCfgRouter(tb *Table, cfg RouterCfg) *rux.Router {
 }
 
 func runC06(e *Env) {
-	e.Rule = "route tables (1..8 routes, skewed method subsets, optional '/*' route for all or some methods) x generated option sets {HandleMethodNotAllowed, HandleFallbackRoute, StrictLastSlash, caching, InterceptAll(p) in 4 spellings} x custom/default NotFound/NotAllowed handlers; probes = 9 methods x instantiations/mutations/trailing-slash variants/'/*'; observed through Match (route, allowed set) and ServeHTTP (status, Allow header, body, CTXAllowedMethods). Oracle: the documented resolution order on top of the AST reference matcher. Non-trivial: resolved by a fallback stage (HEAD->GET, '/*', 405) or >= 2 stages applicable; distinct by (table, options, method, path). Probes also use two request methods outside the nine (PURGE, LINK)."
+	e.Rule = "route tables (1..8 routes, skewed method subsets, optional '/*' route for all or some methods) x generated option sets {HandleMethodNotAllowed, HandleFallbackRoute, StrictLastSlash, caching, InterceptAll(p) in 4 spellings} x custom/default NotFound/NotAllowed handlers; probes = 9 methods x instantiations/mutations/trailing-slash variants/'/*'; observed through Match (route, allowed set) and ServeHTTP (status, Allow header, body, CTXAllowedMethods). Oracle: the documented resolution order on top of the AST reference matcher. Non-trivial: resolved by a fallback stage (HEAD->GET, '/*', 405) or >= 2 stages applicable; distinct by (table, options, method, path). Probes also use two request methods outside the nine (PURGE, LINK). Half of the routers carry 1..4 global middleware (one Use call each); a quarter of their probes are sent once more while a second request for another method/path is resolved by the same router inside one of these middleware - both outcomes must be the model's."
 	e.Assumptions = []string{
 		"the allowed set of the statement is the set of other methods under which the path matches directly (no HEAD->GET, no '/*')",
 		"only the literal route '/*' is a fallback route",
@@ -242,6 +265,9 @@ func c06Case(t *T) {
 			core = "a"
 		}
 		cfg.Intercept = pick(r, []string{"/" + core, "/" + core + "/", core, "  /" + core + " "})
+	}
+	if chance(r, 1, 2) {
+		cfg.GlobalUse = 1 + r.IntN(4)
 	}
 	var failing []string
 	t.Describe(func() any {
@@ -305,52 +331,87 @@ func c06Case(t *T) {
 					t.Fail("servehttp-panic", "ServeHTTP(%s %q) [%v] panicked: %v", method, path, cfg.Describe(), pv)
 					continue
 				}
-				status, body, allow := rec.Status(), rec.Body.String(), rec.H.Get("Allow")
-				switch want.Stage {
-				case "direct", "head-get", "fallback":
-					if (rec.Route != tb.Routes[want.Route].Name && rec.Route != tb.Routes[want.Alt].Name) || status != 200 {
+				c06CheckServe(t, tb, cfg, want, method, path, rec, "", note)
+
+				// --- the same request while another one is resolved inside a global middleware ---
+				if cfg.GlobalUse > 0 && chance(r, 1, 4) {
+					in := pick(r, probes)
+					im := pick(r, AllMethods)
+					iwant, iok := refResolve(tb, cfg, im, in.Path)
+					if !iok {
+						continue
+					}
+					gid := fmt.Sprintf("g%d", r.IntN(cfg.GlobalUse))
+					oreq := NewReq(method, path)
+					oreq.Header.Set("X-Nest", gid+"|"+im+"|"+in.Path)
+					orec, opv, opan := Serve(router, oreq)
+					t.Count("overlap.request_resolved_inside_global_middleware", 1)
+					how := fmt.Sprintf(" {while %s %q was served inside its global middleware %s}", im, in.Path, gid)
+					if opan {
 						note()
-						t.Fail("serve-stage-"+want.Stage, "ServeHTTP(%s %q) [%v]: expected %s to run (stage %s), observed route %q status %d body %q", method, path, cfg.Describe(), rdesc(tb, want.Route), want.Stage, rec.Route, status, body)
+						t.Fail("servehttp-panic", "ServeHTTP(%s %q)%s [%v] panicked: %v", method, path, how, cfg.Describe(), opv)
+						continue
 					}
-				case "not-allowed":
-					if rec.Route != "" {
+					nrec, _ := orec.Extra["nested_rec"].(*Rec)
+					if np, _ := orec.Extra["nested_panicked"].(bool); np || nrec == nil {
 						note()
-						t.Fail("serve-not-allowed-ran-route", "ServeHTTP(%s %q): expected the not-allowed handlers, but route %q ran", method, path, rec.Route)
-						break
+						t.Fail("servehttp-panic", "ServeHTTP(%s %q) served inside the global middleware %s of %s %q panicked: %v", im, in.Path, gid, method, path, orec.Extra["nested_panic"])
+						continue
 					}
-					if cfg.CustomNA {
-						ga, _ := rec.Extra["allowed"].([]string)
-						if body != "custom-na" || status != 405 || strings.Join(ga, ",") != strings.Join(want.Allowed, ",") {
-							note()
-							t.Fail("serve-custom-not-allowed", "ServeHTTP(%s %q) [%v]: expected the custom not-allowed handler with allowed set %v; observed status %d body %q allowed-in-context %v events %v", method, path, cfg.Describe(), want.Allowed, status, body, ga, rec.Events)
-						}
-						break
-					}
-					wantStatus, wantBody := 405, "Method not allowed\n"
-					if method == "OPTIONS" {
-						wantStatus, wantBody = 200, ""
-					}
-					if status != wantStatus || body != wantBody || allow != strings.Join(want.Allowed, ", ") {
-						note()
-						t.Fail("serve-default-405", "ServeHTTP(%s %q) [%v]: expected status %d, Allow %q, body %q; observed status %d, Allow %q, body %q", method, path, cfg.Describe(), wantStatus, strings.Join(want.Allowed, ", "), wantBody, status, allow, body)
-					}
-				case "not-found":
-					if rec.Route != "" {
-						note()
-						t.Fail("serve-not-found-ran-route", "ServeHTTP(%s %q): expected the not-found handlers, but route %q ran", method, path, rec.Route)
-						break
-					}
-					if cfg.CustomNF {
-						if body != "custom-nf" || status != 404 {
-							note()
-							t.Fail("serve-custom-not-found", "ServeHTTP(%s %q) [%v]: expected the custom not-found handler; observed status %d body %q events %v", method, path, cfg.Describe(), status, body, rec.Events)
-						}
-					} else if status != 404 || body != "404 page not found\n" {
-						note()
-						t.Fail("serve-default-404", "ServeHTTP(%s %q) [%v]: expected the default 404; observed status %d body %q", method, path, cfg.Describe(), status, body)
-					}
+					c06CheckServe(t, tb, cfg, want, method, path, orec, how, note)
+					c06CheckServe(t, tb, cfg, iwant, im, in.Path, nrec, fmt.Sprintf(" {served inside the global middleware %s of %s %q}", gid, method, path), note)
 				}
 			}
+		}
+	}
+}
+
+// c06CheckServe judges one ServeHTTP observation against the model's resolution.
+func c06CheckServe(t *T, tb *Table, cfg RouterCfg, want refOutcome, method, path string, rec *Rec, how string, note func()) {
+	status, body, allow := rec.Status(), rec.Body.String(), rec.H.Get("Allow")
+	path += how
+	switch want.Stage {
+	case "direct", "head-get", "fallback":
+		if (rec.Route != tb.Routes[want.Route].Name && rec.Route != tb.Routes[want.Alt].Name) || status != 200 {
+			note()
+			t.Fail("serve-stage-"+want.Stage, "ServeHTTP(%s %q) [%v]: expected %s to run (stage %s), observed route %q status %d body %q", method, path, cfg.Describe(), rdesc(tb, want.Route), want.Stage, rec.Route, status, body)
+		}
+	case "not-allowed":
+		if rec.Route != "" {
+			note()
+			t.Fail("serve-not-allowed-ran-route", "ServeHTTP(%s %q): expected the not-allowed handlers, but route %q ran", method, path, rec.Route)
+			break
+		}
+		if cfg.CustomNA {
+			ga, _ := rec.Extra["allowed"].([]string)
+			if body != "custom-na" || status != 405 || strings.Join(ga, ",") != strings.Join(want.Allowed, ",") {
+				note()
+				t.Fail("serve-custom-not-allowed", "ServeHTTP(%s %q) [%v]: expected the custom not-allowed handler with allowed set %v; observed status %d body %q allowed-in-context %v events %v", method, path, cfg.Describe(), want.Allowed, status, body, ga, rec.Events)
+			}
+			break
+		}
+		wantStatus, wantBody := 405, "Method not allowed\n"
+		if method == "OPTIONS" {
+			wantStatus, wantBody = 200, ""
+		}
+		if status != wantStatus || body != wantBody || allow != strings.Join(want.Allowed, ", ") {
+			note()
+			t.Fail("serve-default-405", "ServeHTTP(%s %q) [%v]: expected status %d, Allow %q, body %q; observed status %d, Allow %q, body %q", method, path, cfg.Describe(), wantStatus, strings.Join(want.Allowed, ", "), wantBody, status, allow, body)
+		}
+	case "not-found":
+		if rec.Route != "" {
+			note()
+			t.Fail("serve-not-found-ran-route", "ServeHTTP(%s %q): expected the not-found handlers, but route %q ran", method, path, rec.Route)
+			break
+		}
+		if cfg.CustomNF {
+			if body != "custom-nf" || status != 404 {
+				note()
+				t.Fail("serve-custom-not-found", "ServeHTTP(%s %q) [%v]: expected the custom not-found handler; observed status %d body %q events %v", method, path, cfg.Describe(), status, body, rec.Events)
+			}
+		} else if status != 404 || body != "404 page not found\n" {
+			note()
+			t.Fail("serve-default-404", "ServeHTTP(%s %q) [%v]: expected the default 404; observed status %d body %q", method, path, cfg.Describe(), status, body)
 		}
 	}
 }
